@@ -14,7 +14,45 @@ import (
 	"sort"
 	"strconv"
 	"strings"
+	"sync/atomic"
+	"time"
 )
+
+// watchdog of the tokenizer stream: the input being scanned is published before the real scanner is
+// called; when one input makes no progress for vWatchLimit the process reports that input as a
+// violation (a hang is what property C16 excludes) and ends normally, so that the cases before it
+// are still compared.  A scan takes microseconds; the limit is far from any load effect.
+var vWatchCur atomic.Pointer[[]byte]
+var vWatchSeq atomic.Int64
+var vWatchOff atomic.Bool
+
+const vWatchLimit = 45 * time.Second
+
+func vWatch(src []byte) {
+	vWatchCur.Store(&src)
+	if vWatchSeq.Add(1) == 1 {
+		go func() {
+			last, since := int64(0), time.Now()
+			for {
+				time.Sleep(time.Second)
+				if vWatchOff.Load() {
+					return
+				}
+				if n := vWatchSeq.Load(); n != last {
+					last, since = n, time.Now()
+				} else if time.Since(since) > vWatchLimit {
+					cur := vWatchCur.Load()
+					vViolation(map[string]any{"kind": "the tokenizer does not terminate on this input (no progress for 45 s; in-process, real scanners)",
+						"source": string(*cur), "source_hex": hex.EncodeToString(*cur),
+						"replay": "write the bytes of source_hex to x.fo and run fc x.fo under a timeout"})
+					fmt.Fprintf(vout, "S hang 1\n")
+					vout.Flush()
+					os.Exit(0)
+				}
+			}
+		}()
+	}
+}
 
 var vout = bufio.NewWriterSize(os.Stdout, 1<<20)
 var vstats = map[string]int{}
@@ -147,6 +185,8 @@ func init() {
 		vTSrc(extra)
 	case "c07":
 		vC07(seed, count, extra)
+	case "c07key":
+		vC07Key(seed, count, extra)
 	case "c03":
 		vC03(seed, count, extra)
 	case "c02":
